@@ -237,6 +237,26 @@ func (g *QGen) GenSelectLoose(from []string) Query {
 		} else {
 			q.Clauses[i].P = PPos{Bound: b}
 		}
+		// sometimes a second bounded clause, also one that waits for a binding of the first
+		// while the first waits for one of its own (no evaluation order exists: must be an error)
+		if len(q.Clauses) > 1 && g.maybe(45, "basecond") {
+			j := (i + 1 + gen.Uniform(g.T, len(q.Clauses)-1, "baclause2")) % len(q.Clauses)
+			b2 := &Bound{ID: gen.Pick(g.T, g.U.PredIDs, "baid2")}
+			mine, theirs := q.Clauses[i].Bindings(), q.Clauses[j].Bindings()
+			if g.maybe(60, "bamutual") && len(mine) > 0 && len(theirs) > 0 {
+				b2.LoB = gen.Pick(g.T, mine, "bamine")
+				nb := *b
+				nb.LoB, nb.HiB = gen.Pick(g.T, theirs, "batheirs"), ""
+				if q.Clauses[i].P.Bound != nil {
+					q.Clauses[i].P.Bound = &nb
+				} else {
+					q.Clauses[i].O.Bound = &nb
+				}
+			} else {
+				b2.HiB = gen.Pick(g.T, names, "bahi2")
+			}
+			q.Clauses[j].P = PPos{Bound: b2}
+		}
 	}
 	all := AllBindings(q.Clauses)
 	if len(all) == 0 {
